@@ -281,6 +281,7 @@ pub fn main(mode: Mode) -> i32 {
             let mut ctx = Ctx::new("C19", "quick");
             ctx.replay(&p, &doc)
         }
+        Mode::Minimize(..) => 2,
         Mode::Run(tier) => {
             let mut ctx = Ctx::new("C19", &tier);
             start_watchdog(120, "C19");
